@@ -24,3 +24,4 @@ def rules(ctx):
     S.c08_r1_one_door(ctx)
     S.untracked_allocation_rules(ctx)
     S.snapshot_atomic_rules(ctx)
+    S.round4_residue_rules(ctx)
